@@ -83,9 +83,10 @@ InRegion(a) == CASE a.a \in {"define", "push"} -> ConflictOK(a.c, DeclOf(a.d)) /
                  [] OTHER -> TRUE
 TNext == /\ ok /\ cut = 0 /\ k < Len(Cases[cid].steps)
          /\ IF InRegion(Cases[cid].steps[k + 1].act)
-            THEN /\ Do(Cases[cid].steps[k + 1].act)
+            THEN \* (fixed BEFORE the action is taken: the action then only tests its own choice of quiet' / tick')
                  /\ quiet' = ~Cases[cid].steps[k + 1].rush
                  /\ tick' = Cases[cid].steps[k + 1].tick
+                 /\ Do(Cases[cid].steps[k + 1].act)
                  /\ k' = k + 1
                  \* a "rush" step carries no observation (the next action was issued before quiescence); it must
                  \* not run anything by itself: what was run is compared at the next observed step
